@@ -174,6 +174,64 @@ def check_calls(wname, seq):
     return []
 
 
+REUSE_KINDS = ("array element", "array slice", "dict value", "dict-of-arrays element", "dict array replaced")
+REUSE_STEPS = ("mutate", "same", "fresh-equal")
+
+
+def check_reused(wname, kind, steps):
+    """One argument object reused across calls and changed in place between them (a preallocated chunk buffer, a record
+    dict that a loop updates): the wrapper must return what the function returns for the argument *as it is now*.
+    steps: what happens before each further call - 'mutate' (change the object in place), 'same' (leave it), or
+    'fresh-equal' (pass a new object with the current content)."""
+    args = {"wrapper": wname, "kind": kind, "steps": list(steps)}
+    raw = BASES["lambda"]()
+
+    def make():
+        if kind in ("array element", "array slice"):
+            return np.array([1.0, 2.0, 3.0])
+        if kind == "dict value":
+            return {"x": 1.0}
+        return {"x": np.array([1.0, 2.0, 3.0])}
+
+    def mutate(o, n):
+        if kind == "array element":
+            o[0] = 10.0 + n
+        elif kind == "array slice":
+            o[:] = o[::-1].copy() + n
+        elif kind == "dict value":
+            o["x"] = 10.0 + n
+        elif kind == "dict-of-arrays element":
+            o["x"][1] = 10.0 + n
+        else:
+            o["x"] = np.array([10.0 + n, 0.0, 1.0])
+
+    def snap(v):
+        return v.copy() if isinstance(v, np.ndarray) else v
+
+    try:
+        w = wrappers_for_calls()[wname]()
+        o = make()
+        w(o)
+        for n, st in enumerate(steps):
+            if st == "mutate":
+                mutate(o, n)
+                arg = o
+            elif st == "same":
+                arg = o
+            else:
+                arg = {k: snap(v) for k, v in o.items()} if isinstance(o, dict) else o.copy()
+            want = snap(raw(arg))
+            got = w(arg)
+            if not same_value(got, want):
+                return [FW.violation(PROP, "reused-argument", ("cached" if "cached" in wname else wname.split("(")[0]) + " wrapper",
+                                     "stale-result-for-an-argument-changed-in-place" if st == "mutate" else
+                                     "wrong-result-for-an-unchanged-or-fresh-argument", args,
+                                     {"step": n, "got": repr(got)[:80], "expected": repr(want)[:80]})]
+    except Exception as e:
+        return [core.v_exc(PROP, "reused-argument", "call through %s wrapper raised" % wname.split("(")[0], e, args)]
+    return []
+
+
 # ------------------------------------------------------------------ (iii) string expressions
 ATOMS = ["x", "y", "2", "0.5"]
 BINOPS = ["+", "-", "*", "/", "<", ">=", " and ", " or "]
@@ -389,6 +447,14 @@ def _task(task):
                 acc.add(check_calls(wname, seq))
                 acc.n("call_sequences")
                 acc.distinct("cases", FW.hkey(("calls", wname, seq)))
+    elif kind == "reused":
+        for wname in wrappers_for_calls():
+            for k in REUSE_KINDS:
+                for L in (1, 2, 3):
+                    for steps in itertools.product(REUSE_STEPS, repeat=L):
+                        acc.add(check_reused(wname, k, steps))
+                        acc.n("reused_argument_sequences")
+                        acc.distinct("cases", FW.hkey(("reused", wname, k, steps)))
     elif kind == "field-names":
         for name, other in itertools.permutations(FIELD_NAMES, 2):
             acc.add(check_field_name(name, other))
@@ -435,7 +501,7 @@ def run(tier, seed):
     maxlen_calls = 3 if tier == "quick" else 4
     tasks = [("words", b, 4) for b in BASES]
     tasks += [("calls", w, first, maxlen_calls) for w in wrappers_for_calls() for first in range(len(arg_menu()))]
-    tasks += [("expr", c) for c in chunks if c] + [("field-names",)]
+    tasks += [("expr", c) for c in chunks if c] + [("field-names",), ("reused",)]
     tasks += [("agg", a, 2 if tier == "quick" else 3) for a in ("Sum", "Bin(Average)", "Select(Categorize)", "SparselyBin(Minimize)")]
     accs = FW.pmap(_task, tasks, seed)
     acc = FW.Acc()
@@ -471,6 +537,8 @@ def replay(driver, args):
         return vs
     if driver == "calls":
         return check_calls(args["wrapper"], tuple(args["calls"]))
+    if driver == "reused-argument":
+        return check_reused(args["wrapper"], args["kind"], tuple(args["steps"]))
     if driver == "field-names":
         return check_field_name(args["name"], args["other"])
     if driver == "expr":
